@@ -28,6 +28,18 @@ CHECKS = {
 
 NOT_APPLICABLE = []
 
+CHECKS['C18'] = (
+    'symbolic execution of the real expiration policy and db-api on minidb: '
+    'the captured WHERE / ORDER BY / OFFSET / LIMIT trees are interpreted '
+    'over rows with symbolic state and updated_at, cascades from the real '
+    'foreign keys; z3 decides every path',
+    'Candidate predicates for one / three symbolic rows; one whole evaluation '
+    'over 3-4 root executions (one with a nested sub-tree) with symbolic '
+    'states and ages under 6 (quick) / 88 (thorough) settings incl. unset '
+    'older_than: terminates, no exception, deletes exactly what is configured, '
+    'never tears a tree, never a newer one before an older eligible one.',
+    '§3 C18')
+
 CHECKS['C17'] = (
     'symbolic execution of the real process_cron_triggers_v2 / '
     'advance_cron_trigger and db-api on minidb (captured SQLAlchemy clause '
